@@ -59,6 +59,13 @@ public:
 
     ImportLibrary mLibrary;
 
+    /**
+     * The errors the parser reported for a model read from a file, kept as long as the model is in the
+     * library: every import from that model has to be tested against them, not only the one that
+     * happened to trigger the reading of the file.
+     */
+    std::map<const Model *, std::vector<IssuePtr>> mLibraryErrors;
+
     std::vector<ImportSourcePtr> mImports;
     std::vector<ImportSourcePtr>::const_iterator findImportSource(const ImportSourcePtr &importSource) const;
 
@@ -395,7 +402,7 @@ bool Importer::ImporterImpl::fetchModel(const ImportSourcePtr &importSource, con
                     addIssue(issue);
                     return false;
                 }
-                addIssue(parser->error(index));
+                mLibraryErrors[model.get()].push_back(parser->error(index));
             }
         }
         mLibrary.insert(std::make_pair(url, model));
@@ -502,8 +509,6 @@ bool Importer::ImporterImpl::fetchComponent(const ComponentPtr &importComponent,
         return true;
     }
 
-    size_t startIndex = mImporter->errorCount();
-
     if (!fetchImportSource(importComponent->importSource(), baseFile)) {
         return false;
     }
@@ -511,15 +516,13 @@ bool Importer::ImporterImpl::fetchComponent(const ComponentPtr &importComponent,
     auto sourceModel = importComponent->importSource()->model();
     auto sourceComponent = sourceModel->component(importComponent->importReference());
 
-    size_t endIndex = mImporter->errorCount();
     bool encounteredRelatedError = false;
-    if (endIndex > startIndex) {
-        for (size_t index = endIndex; startIndex < index; --index) {
-            auto error = mImporter->error(index - 1);
-            removeError(index - 1);
-
-            if (!encounteredRelatedError && isErrorRelatedToComponent(error, sourceComponent)) {
+    auto sourceModelErrors = mLibraryErrors.find(sourceModel.get());
+    if (sourceModelErrors != mLibraryErrors.end()) {
+        for (const auto &error : sourceModelErrors->second) {
+            if (isErrorRelatedToComponent(error, sourceComponent)) {
                 encounteredRelatedError = true;
+                break;
             }
         }
     }
@@ -532,6 +535,8 @@ bool Importer::ImporterImpl::fetchComponent(const ComponentPtr &importComponent,
         issue->mPimpl->mItem->mPimpl->setComponent(importComponent);
         issue->mPimpl->setReferenceRule(Issue::ReferenceRule::IMPORTER_ERROR_IMPORTING_UNITS);
         addIssue(issue);
+        // The import failed: it must not look resolved.
+        importComponent->importSource()->removeModel();
         return false;
     }
 
@@ -648,20 +653,18 @@ bool Importer::ImporterImpl::fetchUnits(const UnitsPtr &importUnits, const std::
         return true;
     }
 
-    size_t startIndex = mImporter->errorCount();
     if (!fetchImportSource(importUnits->importSource(), baseFile)) {
         return false;
     }
 
     bool encounteredRelatedError = false;
-    size_t endIndex = mImporter->errorCount();
-    if (endIndex > startIndex) {
-        for (size_t index = endIndex; startIndex < index; --index) {
-            auto error = mImporter->error(index - 1);
+    auto unitsSourceModelErrors = mLibraryErrors.find(importUnits->importSource()->model().get());
+    if (unitsSourceModelErrors != mLibraryErrors.end()) {
+        for (const auto &error : unitsSourceModelErrors->second) {
             auto errorUnits = error->item()->units();
-            removeError(index - 1);
-            if (!encounteredRelatedError && (errorUnits != nullptr) && (errorUnits->name() == importUnits->importReference())) {
+            if ((errorUnits != nullptr) && (errorUnits->name() == importUnits->importReference())) {
                 encounteredRelatedError = true;
+                break;
             }
         }
     }
@@ -674,6 +677,8 @@ bool Importer::ImporterImpl::fetchUnits(const UnitsPtr &importUnits, const std::
         issue->mPimpl->mItem->mPimpl->setUnits(importUnits);
         issue->mPimpl->setReferenceRule(Issue::ReferenceRule::IMPORTER_ERROR_IMPORTING_UNITS);
         addIssue(issue);
+        // The import failed: it must not look resolved.
+        importUnits->importSource()->removeModel();
         return false;
     }
 
@@ -1279,6 +1284,7 @@ bool Importer::replaceModel(const ModelPtr &model, const std::string &key)
         // If the key is not found, do nothing.
         return false;
     }
+    pFunc()->mLibraryErrors.erase(pFunc()->mLibrary[normalisedKey].get());
     pFunc()->mLibrary[normalisedKey] = model;
     return true;
 }
@@ -1300,6 +1306,7 @@ std::string Importer::key(const size_t &index)
 void Importer::removeAllModels()
 {
     pFunc()->mLibrary.clear();
+    pFunc()->mLibraryErrors.clear();
 }
 
 bool Importer::hasImportSource(const ImportSourcePtr &importSource) const
